@@ -563,4 +563,23 @@ def c02_struct_decode(kw=False):
         ok, detail = False, f"reading a conforming stream raised {type(e).__name__}: {e}"
     return {"violates": not ok, "detail": detail}
 
-CALLS = {"c02_struct_decode": c02_struct_decode, "c02_descriptor_alias": c02_descriptor_alias, "c02_grouped_same_name": c02_grouped_same_name, "c02_nested_stream": c02_nested_stream, "c02_value_form": c02_value_form, "c02_concat": c02_concat, "c02_ignoring": c02_ignoring, "c02_registry_keeps": c02_registry_keeps, "c02_bare_name_latest": c02_bare_name_latest, "c02_refused_then_written": c02_refused_then_written, "c02_history_sweep": c02_history_sweep, "c02_golden": c02_golden, "c02_make_golden": c02_make_golden, "c02_reference_sweep": c02_reference_sweep, "c02_reference_decode": c02_reference_decode, "c02_reference_encode": c02_reference_encode, "c02_compat": c02_compat}
+
+def c02_list_in_place():
+    from flow.record import RecordDescriptor
+
+    D = RecordDescriptor("c02/lists", [("datetime[]", "tl"), ("path[]", "pl"), ("net.ipaddress[]", "al"), ("string[]", "sl")])
+    ts1 = datetime.datetime(2020, 1, 2, 3, 4, 5, 6, tzinfo=UTC)
+    ts2 = datetime.datetime(2001, 2, 3, 4, 5, 6, 7, tzinfo=UTC)
+    r = D(tl=[ts1], pl=["/a"], al=["1.2.3.4"], sl=["x"])
+    r.tl.append(ts2)
+    r.pl.append("/b/c")
+    r.al.insert(0, "5.6.7.8")
+    r.sl.append(b"bytes")
+    recs = [e for e in R.decode_stream(_write([r])) if e[0] == "REC"]
+    vals = recs[0][3]
+    norm = lambda x: [norm(y) for y in x] if isinstance(x, (list, tuple)) and not (x and x[0] in ("ts", "ts-iso")) else x
+    got = [norm(v) for v in vals[:4]]
+    want = [[("ts", 2020, 1, 2, 3, 4, 5, 6), ("ts", 2001, 2, 3, 4, 5, 6, 7)], [["/a", 0], ["/b/c", 0]], [0x05060708, 0x01020304], ["x", "bytes"]]
+    return {"violates": got != want, "detail": f"typed lists with elements put in place: the stream carries {got!r}, the format has {want!r}"}
+
+CALLS = {"c02_list_in_place": c02_list_in_place, "c02_struct_decode": c02_struct_decode, "c02_descriptor_alias": c02_descriptor_alias, "c02_grouped_same_name": c02_grouped_same_name, "c02_nested_stream": c02_nested_stream, "c02_value_form": c02_value_form, "c02_concat": c02_concat, "c02_ignoring": c02_ignoring, "c02_registry_keeps": c02_registry_keeps, "c02_bare_name_latest": c02_bare_name_latest, "c02_refused_then_written": c02_refused_then_written, "c02_history_sweep": c02_history_sweep, "c02_golden": c02_golden, "c02_make_golden": c02_make_golden, "c02_reference_sweep": c02_reference_sweep, "c02_reference_decode": c02_reference_decode, "c02_reference_encode": c02_reference_encode, "c02_compat": c02_compat}
